@@ -32,5 +32,6 @@ SPEC = docsweep.Spec(
     oracle=oracle,
     nontrivial=lambda fs: bool(fs & {"table", "corpus"}),
     n_quick=120, n_thorough=4000,
+    extra_corr=docsweep.utilities_corr("headings"),
 )
 run, search, replay = make(SPEC)
